@@ -396,6 +396,10 @@ func c12mutations(c *vf.Ctx, i int) {
 	for _, cnt := range []uint32{pm.Count - 1, pm.Count + 1, pm.Count * 2, pm.Count*2 - 1, (pm.Count + 1) / 2, 0, max, max + 1, 1 << 31, ^uint32(0)} {
 		try("count_altered", cnt, pm.Hashes, pm.Flags)
 	}
+	// counts anywhere above the maximum (an overflowing size computation would let some through)
+	for k := 0; k < 24; k++ {
+		try("count_above_max", max+1+uint32(c.R.Uint64n(uint64(^uint32(0)-max))), pm.Hashes, pm.Flags)
+	}
 	// flags truncated / extended
 	try("flags_truncated", pm.Count, pm.Hashes, pm.Flags[:len(pm.Flags)-1])
 	try("flags_emptied", pm.Count, pm.Hashes, nil)
@@ -590,6 +594,11 @@ func c12deep(c *vf.Ctx, i int) {
 	for _, cnt := range []uint32{0, 1, max - 1, max, max + 1, 1 << 31, ^uint32(0)} {
 		try("single_hash_boundary_count", cnt, one, []byte{0x00})
 		try("single_hash_boundary_count", cnt, one, []byte{0x01})
+	}
+	for k := 0; k < 16; k++ {
+		cnt := max + 1 + uint32(c.R.Uint64n(uint64(^uint32(0)-max)))
+		try("single_hash_count_above_max", cnt, one, []byte{0x00})
+		try("single_hash_count_above_max", cnt, one, []byte{0x01})
 	}
 	t.flush(c)
 	if c.WantSample() {
